@@ -97,7 +97,7 @@ CLAIMED = {
         technique="Lean 4 theorems over ported syll.rs + exhaustive table-model evaluation on impl",
         design="§4 C05"),
     "C06": dict(
-        text='Proved over the interpreter port, for words of any length and shape: (a) a substitution/deletion/metathesis sub-rule whose input matches nowhere returns the word itself; (b) literal_absent_identity: if the input is a literal segment that does not occur in the word, the scan loop walks the whole word without capturing anything (induction on the loop) and the sub-rule returns the word unchanged for every fuel (or reports too little fuel) - never another word, an error or a panic. PARTIAL: the full-grammar statement (literal planted anywhere in any rule) is false on the pinned tree (known findings D4a, D4b, D6, D21) and is decided by the c06-spec search (planted absent literal in generated full-grammar rules, blank/comment lines) plus the model/impl correspondence.',
+        text='Proved over the interpreter port, for words of any length and shape: (a) a substitution/deletion/metathesis sub-rule whose input matches nowhere returns the word itself; (b) literal_absent_identity: if the input is a literal segment that does not occur in the word, the scan loop walks the whole word without capturing anything (induction on the loop) and the sub-rule returns the word unchanged for every fuel (or reports too little fuel) - never another word, an error or a panic. PARTIAL: the full-grammar statement (literal planted anywhere in any rule) is false on the pinned tree (known findings D4a, D4b; D6, D6b and the D21 input-ellipsis family were repaired by fix: commits) and is decided by the c06-spec search (planted absent literal in generated full-grammar rules, blank/comment lines) plus the model/impl correspondence.',
         note='Trusted: Lean kernel, standard axioms (+ bv_decide certificates where the bit layer is used); the hand port of subrule.rs/rule.rs/syll.rs (Model/Interp), tied to the code on every run by the interp-ops correspondence (identical outcome class and word on ~27k generated cases quick / 400k thorough, release profile); generators and labels of the search.',
         technique='Lean 4 loop-induction theorem on the interpreter port (fragment) + correspondence + planted-literal search',
         design="§4 C06"),
